@@ -75,7 +75,7 @@ var (
 	regMu   sync.Mutex
 	typeIDs = map[reflect.Type]int{}
 	idTypes = map[int]reflect.Type{}
-	nextDyn = 100
+	nextDyn = 2000
 )
 
 func init() {
@@ -85,7 +85,7 @@ func init() {
 	}
 }
 
-// tyID returns the id of a type, registering unknown types with fresh ids >= 100.
+// tyID returns the id of a type, registering unknown types with fresh ids >= 2000.
 func tyID(t reflect.Type) int {
 	regMu.Lock()
 	defer regMu.Unlock()
